@@ -33,6 +33,9 @@ FAMILY = [
     # the highest template of this probe has no spikes
     {'n_channels': 3, 'n_templates': 3, 'channel_map': 'identity', 'geometry': 'grid',
      'ind_dtype': 'uint32', 'unused_top': True},
+    # templates stored in double precision (the other probes store float32)
+    {'n_channels': 3, 'n_templates': 2, 'channel_map': 'perm', 'geometry': 'grid',
+     'ind_dtype': 'uint32', 'template_dtype': 'float64'},
 ]
 
 
@@ -143,7 +146,7 @@ def check(res):
                         break
                     blk = tp[row][:, C[k]:C[k] + cs[k]]
                     rest = np.delete(tp[row], np.arange(C[k], C[k] + cs[k]), axis=1)
-                    if not np.array_equal(blk, Tk[t]):
+                    if not np.array_equal(blk, Tk[t].astype(tp.dtype)):
                         what = 'wrong-block' if K <= 2 or k < 2 else 'wrong-block,probe>=2'
                         if T[k] != sum(nts[:k]):
                             what = 'row-offset-differs-from-id-offset'
